@@ -262,7 +262,9 @@ def configs(tier, seed):
             cfgs.append(dict(kind='walk', name='walk D%d %s' % (D, 'real' if real else 'complex'), D=D, real=real))
     grid = [(4, 2), (5, 2), (5, 3), (6, 3), (4, 4), (5, 5), (7, 3)] if tier == 'quick' else \
         [(2, 1), (2, 2), (3, 2), (3, 3), (4, 1), (4, 2), (4, 3), (4, 4), (5, 2), (5, 3), (5, 5), (6, 3), (6, 4), (7, 2), (7, 3), (7, 7), (8, 3), (9, 4)]
-    for (L, S), (style, kaldi) in itertools.product(grid, [('causal', False), ('centered', False), ('centered', True)]):
+    # kaldi_shift is documented to matter for centered frames only: causal + kaldi_shift at two grid points
+    extra = [((L, S), ('causal', True)) for (L, S) in ((5, 2), (7, 3))]
+    for (L, S), (style, kaldi) in list(itertools.product(grid, [('causal', False), ('centered', False), ('centered', True)])) + extra:
         cfgs.append(dict(kind='frames', name='frames L%d S%d %s%s' % (L, S, style, '+kaldi' if kaldi else ''), L=L, S=S, style=style,
                          kaldi=kaldi, NMAX=(3 if tier == 'quick' else 4) * L))
     cfgs.append(dict(kind='flow', name='flow'))
